@@ -144,8 +144,8 @@ def run_cfg(case, failures):
 
 
 def health(classes, n, tier):
-    need = {"eps_moves": 0.2, "multi_symbol_push": 0.2, "no_final_state": 0.03,
-            "empty_stack_language_nonempty": 0.08, "final_state_language_nonempty": 0.1, "cfg": 0.15}
+    need = {"eps_moves": 0.08, "multi_symbol_push": 0.08, "no_final_state": 0.012,
+            "empty_stack_language_nonempty": 0.032, "final_state_language_nonempty": 0.04, "cfg": 0.06}
     for k, frac in need.items():
         if classes.get(k, 0) < frac * n:
             return "class %s too rare: %d of %d" % (k, classes.get(k, 0), n)
